@@ -58,6 +58,17 @@ NEW = [
      'import pickle\n\n\ndef f(f1):\n    return pickle.load(open(pickle.load(f1), "rb"))\n'),
     ("pixee:python/flask-json-response-type",
      'from flask import Flask\nimport json\n\napp = Flask(__name__)\n\n\n@app.route("/x")\ndef x(uid):\n    return json.dumps({"a": 1}), 200, {"X-Request-Id": uid}\n'),
+    # round 9: the same construct twice in one file; a construct nested in its own kind
+    ("pixee:python/exception-without-raise",
+     'def check(a, b):\n    if a < 0:\n        ValueError("a must not be negative")\n    if b < 0:\n        ValueError("b must not be negative")\n    return a + b\n'),
+    ("pixee:python/safe-lxml-parser-defaults",
+     'import lxml.etree\n\nfirst = lxml.etree.XMLParser(resolve_entities=True)\nsecond = lxml.etree.XMLParser()\nthird = lxml.etree.XMLParser()\n'),
+    ("pixee:python/remove-assertion-in-pytest-raises",
+     'import pytest\n\n\ndef test_x():\n    with pytest.raises(ValueError):\n        with pytest.raises(KeyError):\n            foo()\n            assert 1\n'),
+    ("pixee:python/use-walrus-if",
+     'def f():\n    x = foo()\n    y = x\n    if y:\n        print("hi")\n'),
+    ("pixee:python/fix-float-equality",
+     'a = 1\nx = (a == 0.1) == 1.0\n'),
     ("pixee:python/remove-debug-breakpoint",
      'import pdb\n\n\ndef f():\n    breakpoint()\n    pdb.set_trace()\n    x = 1; breakpoint()\n    return x\n'),
 ]
